@@ -698,7 +698,7 @@ class KeychainSqlite3(Keychain):
         :type name: :any:`NonStrictName`
         """
         formal_name = Name.normalize(name)
-        name = Name.to_bytes(name)
+        name = Name.to_bytes(formal_name)      # (``name`` may be a one-shot iterator: convert it once)
         id_name = formal_name[:-2]
         key = self[id_name][formal_name]
         self.conn.execute('DELETE FROM certificates WHERE key_id=?', (key.row_id,))
